@@ -197,7 +197,9 @@ def _chunk(arg: tuple) -> list:
     rng = random.Random(seed)
     txtids: dict = {}
     traces = []
-    for dd in docs:
+    from checks import store_replay
+    for dk, dd in enumerate(docs):
+        store_replay.set_load_factor([2, 1000, 3, 4][dk % 4])      # placeholder moves straddle block boundaries
         for fl in flavors:
             text = doclib.render(dd, fl)
             for default in (True, False):
@@ -224,6 +226,7 @@ def _chunk(arg: tuple) -> list:
                     tr = record(text, default, plan, txtids)
                     if tr is not None:
                         traces.append(tr)
+    store_replay.set_load_factor(1000)
     return traces
 
 
